@@ -103,6 +103,38 @@ def model_schedules(c, drv, path):
     return nsched
 
 
+def corpus_cases():
+    """past failures of the three runner properties (the schedules are run against every one of them)"""
+    out = []
+    for pid in ("C04", "C05", "C09"):
+        d = os.path.join(vcheck.VERIF, "corpus", pid)
+        if os.path.isdir(d):
+            for fn in sorted(os.listdir(d)):
+                if fn.endswith(".json"):
+                    with open(os.path.join(d, fn)) as f:
+                        out.append(json.load(f))
+    return out
+
+
+def tie_diagnosis(c):
+    """a tie theorem that fails stops the whole Ties module: say which extracted facts differ from the snapshot"""
+    import re
+
+    def defs(path):
+        try:
+            src = open(path).read()
+        except OSError:
+            return {}
+        return {m.group(1): m.group(2).strip() for m in
+                re.finditer(r"^def (\w+) : [^\n]*:=\n(.*?)(?=^def |^end )", src, re.S | re.M)}
+    ext = defs(os.path.join(vcheck.LEAN, "Dawn", "Extracted", "Runner.lean"))
+    exp = defs(os.path.join(vcheck.LEAN, "Dawn", "Ties", "RunnerExpected.lean"))
+    diff = sorted(k for k in set(ext) | set(exp) if ext.get(k) != exp.get(k))
+    c.coverage["extracted_facts_that_differ_from_the_snapshot"] = diff
+    if diff:
+        c.log("tie 1: extracted facts that differ from the model's snapshot: " + ", ".join(diff))
+
+
 def parse(out):
     pairs, viols, stats = {}, [], {}
     for line in out.split("\n"):
@@ -216,21 +248,29 @@ def run(c, pid, assumptions):
         "other operation)",
         "the client of the runner calls EvaluateTargets exactly once per Evaluate, as runTarget.Evaluate does"]
     c.coverage["rule"] = RULE
-    c.prove()
+    if not c.prove():
+        tie_diagnosis(c)
     exe = harness(c)
     drv = c.driver("drv_runner")
     if not exe or not drv:
         return c
     sched_file = os.path.join(vcheck.BUILD, "runner-sched-%s-%d.txt" % (pid, os.getpid()))
+    corpus_file = os.path.join(vcheck.BUILD, "runner-corpus-%s-%d.txt" % (pid, os.getpid()))
     try:
         model_schedules(c, drv, sched_file)
+        with open(corpus_file, "w") as f:
+            for case in corpus_cases():
+                i = case.get("input", {})
+                if i.get("mode") == "schedule":
+                    f.write("%s %s\n" % (i["params"], i["schedule"]))
         t = time.time()
-        p = subprocess.run([exe, "-seed", str(c.seed), "-tier", c.tier, "-sched", sched_file], stdout=subprocess.PIPE,
-                           timeout=1500)
+        p = subprocess.run([exe, "-seed", str(c.seed), "-tier", c.tier, "-sched", sched_file, "-corpus", corpus_file],
+                           stdout=subprocess.PIPE, timeout=1500)
         c.log("harness: %.1fs, exit %d" % (time.time() - t, p.returncode))
     finally:
-        if os.path.exists(sched_file):
-            os.remove(sched_file)
+        for fn in (sched_file, corpus_file):
+            if os.path.exists(fn):
+                os.remove(fn)
     pairs, viols, stats = parse(p.stdout.decode("utf-8", "replace"))
     if p.returncode != 0:
         c.broken.append("harness exited %d" % p.returncode)
